@@ -381,7 +381,9 @@ def spanish():
     rows.append({"word": ",", "digits": "", "kind": "comma", "marker": None, "expect": None, "desc": "a comma is never a number word (it ends the number in progress)"})
     rows.append({"word": "y", "digits": "", "kind": "link", "marker": None, "expect": None, "desc": "the conjunction: a link word once the number has two digits, not a number word otherwise"})
     for w_, p_ in (("mil", 3), ("millón", 6), ("millon", 6), ("millones", 6)):
-        rows.append({"word": w_, "digits": "", "kind": "scale", "p": p_, "marker": None, "expect": "1" + "0" * p_, "desc": f"multiplies the last group by 10^{p_} (implicit one on an empty group)"})
+        rows.append({"word": w_, "digits": "", "kind": "scale", "p": p_, "k": 0, "marker": None, "expect": "1" + "0" * p_, "desc": f"multiplies the last group by 10^{p_} (implicit one on an empty group)"})
+    for w_, k_, mk_ in (("milésimo", 2, "º"), ("milésimos", 3, "ᵒˢ"), ("milésima", 4, "ª"), ("milésimas", 5, "ᵃˢ")):
+        rows.append({"word": w_, "digits": "", "kind": "scale", "p": 3, "k": k_, "marker": mk_, "expect": "1000" + mk_, "desc": f"ordinal thousand, marker `{mk_}`"})
 
     def row_stmt(r):
         if r["word"] == ",":
@@ -389,7 +391,7 @@ def spanish():
         if r["kind"] == "link":
             return f"(o.marker is None) ==> es_model({W(r['word'])}, o) == (if size_of(o) >= 2 {{ err_res(o, Error::Incomplete) }} else {{ err_res(o, Error::NaN) }})"
         if r["kind"] == "scale":
-            return f"es_scale_row({r['p']}, o, es_model({W(r['word'])}, o))"
+            return f"es_scale_row({r['p']}, {r['k']}, o, es_model({W(r['word'])}, o))"
         want = 6 if r["kind"] == "f" else WANT[r["marker"]]
         unit_guarded = r["kind"] == "c" and len(r["digits"]) == 1 and r["digits"] != "0"
         needs_ord = lemma_of(r["word"]) == "segundo"   # "segundo" is also the time unit: only read as 2 inside an ordinal
@@ -441,9 +443,34 @@ def spanish():
         d.append(f"    if h == {k} {{ " + " ".join(f"es_rows_{modof[x]}::lemma_es_row_{wname(x)}(o);" for x in ws_) + " }")
     d.append("}")
     d.append(f"pub proof fn lemma_es_y(o: DsView) requires o.marker is None ensures es_model({W('y')}, o) == (if size_of(o) >= 2 {{ err_res(o, Error::Incomplete) }} else {{ err_res(o, Error::NaN) }}) {{ es_rows_{modof['y']}::lemma_es_row_y(o); }}")
-    d.append(f"pub proof fn lemma_es_mil(o: DsView) ensures es_scale_row(3, o, es_model({W('mil')}, o)) {{ es_rows_{modof['mil']}::lemma_es_row_mil(o); }}")
-    d.append(f"pub proof fn lemma_es_millon(o: DsView) ensures es_scale_row(6, o, es_model({W('millón')}, o)), es_scale_row(6, o, es_model({W('millones')}, o)) {{ es_rows_{modof['millón']}::lemma_es_row_{wname('millón')}(o); es_rows_{modof['millones']}::lemma_es_row_millones(o); }}")
+    d.append(f"pub proof fn lemma_es_mil(o: DsView) ensures es_scale_row(3, 0, o, es_model({W('mil')}, o)) {{ es_rows_{modof['mil']}::lemma_es_row_mil(o); }}")
+    d.append(f"pub proof fn lemma_es_millon(o: DsView) ensures es_scale_row(6, 0, o, es_model({W('millón')}, o)), es_scale_row(6, 0, o, es_model({W('millones')}, o)) {{ es_rows_{modof['millón']}::lemma_es_row_{wname('millón')}(o); es_rows_{modof['millones']}::lemma_es_row_millones(o); }}")
     d.append(f"pub proof fn lemma_es_cero(o: DsView) ensures es_row(d1(48u8), 0, false, false, o, es_model({W('cero')}, o)) {{ es_rows_{modof['cero']}::lemma_es_row_cero(o); }}")
+    # ordinals: value -> base word (masculine singular); the four gender/number forms are kinds 2 (º), 3 (ᵒˢ), 4 (ª), 5 (ᵃˢ)
+    ovals = {int(v): w for w, v in ords.items()}
+    def forms(w):
+        return {2: w, 3: w + "s", 4: w[:-1] + "a", 5: w[:-1] + "as"}
+    d.append("/// the ordinal word of value v (1..20, 30..90, 100..900) in the gender/number form k (2: -o, 3: -os, 4: -a, 5: -as)")
+    body = []
+    for v in sorted(ovals):
+        f = forms(ovals[v])
+        body.append(f"if v == {v} {{ if k == 2 {{ {W(f[2])} }} else if k == 3 {{ {W(f[3])} }} else if k == 4 {{ {W(f[4])} }} else {{ {W(f[5])} }} }}")
+    d.append("pub open spec fn es_ord_w(v: int, k: int) -> Seq<char> { " + " else ".join(body) + " else { " + W("milésimo") + " } }")
+    d.append("pub open spec fn es_ord_val(v: int) -> bool { (1 <= v <= 20) || (v % 10 == 0 && 30 <= v <= 90) || (v % 100 == 0 && 100 <= v <= 900) }")
+    d.append("pub open spec fn es_ord_d(v: int) -> Seq<u8> { if v < 10 { d1((48 + v) as u8) } else if v < 100 { d2((48 + v / 10) as u8, (48 + v % 10) as u8) } else { d3((48 + v / 100) as u8, 48u8, 48u8) } }")
+    d.append("pub proof fn lemma_es_ord(v: int, k: int, o: DsView)")
+    d.append("    requires es_ord_val(v), 2 <= k <= 5")
+    d.append("    ensures es_row(es_ord_d(v), k, false, v == 2 && k <= 3, o, es_model(es_ord_w(v, k), o))")
+    d.append("{")
+    d.append("    reveal(d1); reveal(d2); reveal(d3);")
+    for v in sorted(ovals):
+        f = forms(ovals[v])
+        d.append(f"    if v == {v} {{ assert(es_ord_d(v) =~= {digs(str(v))}); " + " ".join(f"if k == {kk} {{ es_rows_{modof[f[kk]]}::lemma_es_row_{wname(f[kk])}(o); }}" for kk in (2, 3, 4, 5)) + " }")
+    d.append("}")
+    mf = forms("milésimo")
+    d.append("pub open spec fn es_mil_ow(k: int) -> Seq<char> { " + f"if k == 2 {{ {W(mf[2])} }} else if k == 3 {{ {W(mf[3])} }} else if k == 4 {{ {W(mf[4])} }} else {{ {W(mf[5])} }}" + " }")
+    d.append("pub proof fn lemma_es_mil_o(k: int, o: DsView) requires 2 <= k <= 5 ensures es_scale_row(3, k, o, es_model(es_mil_ow(k), o)) { "
+             + " ".join(f"if k == {kk} {{ es_rows_{modof[mf[kk]]}::lemma_es_row_{wname(mf[kk])}(o); }}" for kk in (2, 3, 4, 5)) + " }")
     open(os.path.join(T, "es_dispatch.inc"), "w", encoding="utf-8").write("\n".join(d) + "\n")
     for r in rows:
         if lemma_of(r["word"]) == "segundo":
